@@ -554,6 +554,21 @@ func applyDefect(r *rand.Rand, w *AWorld, kind string) {
 			twin := ACap{Can: t.Caps[k].Can, With: t.Caps[k].With, Nb: [][2]int{{1, v + 5}}}
 			t.Caps = append(t.Caps[:k], append([]ACap{twin}, t.Caps[k:]...)...)
 		}
+	case "twinwide":
+		// before a capability of an intermediate token, a twin that covers the claim just as well (ability `*`,
+		// same resource and caveats) but asks its own proofs for more than they grant: the branch through the
+		// twin fails one level up, the search has to go on with the next capability of the same token
+		// (every intermediate token gets one, in front of all its capabilities, on the claimed resource: the
+		// twins form a chain of their own that ends at the root, which does not grant `*`)
+		if inv := w.Tokens[w.Inv]; len(inv.Caps) > 0 {
+			for i := range w.Tokens {
+				x := &w.Tokens[i]
+				if i != w.Inv && len(x.Prfs) > 0 && len(x.Caps) > 0 && x.Caps[0].Can != "ucan/attest" {
+					twin := ACap{Can: "*", With: inv.Caps[0].With, Nb: append([][2]int(nil), inv.Caps[0].Nb...)}
+					x.Caps = append([]ACap{twin}, x.Caps...)
+				}
+			}
+		}
 	case "nonowner":
 		// the root of the chain is issued by somebody who does not own the resource
 		for i := range w.Tokens {
